@@ -16,6 +16,7 @@
 #include <errno.h>
 #include <stdint.h>
 #include <uriparser/Uri.h>
+#include <uriparser/UriIp4.h>
 
 #ifdef DRV_WIDE
 typedef wchar_t CH;
